@@ -378,6 +378,10 @@ pub struct Locator<'a> {
 }
 
 impl Locator<'_> {
+    /// like `locate`, for bytes of either input stream type (the caller knows they were delivered already)
+    pub fn locate_any(&self, chunk: &[u8], own: u32) -> Result<Vec<(u64, u64)>, String> {
+        self.locate(chunk, own, 5).or_else(|_| self.locate(chunk, own, 8))
+    }
     pub fn locate(&self, chunk: &[u8], own: u32, ty: u8) -> Result<Vec<(u64, u64)>, String> {
         let mut out: Vec<(u64, u64)> = Vec::new();
         if self.dry { return Ok(out); }
@@ -625,11 +629,18 @@ fn cfg_buf(b: usize) -> usize { if b <= 24 { 24 } else { (b + 7) / 8 * 8 } }
 
 /// A connection carrying 1..3 requests with input streams per role.
 pub fn gen_connection(r: &mut rand::rngs::StdRng, b: usize, big: bool) -> Vec<u8> {
+    gen_connection_ids(r, b, big).0
+}
+
+/// Also returns, per generated request, (offset of its BeginRequest, request id, role).
+pub fn gen_connection_ids(r: &mut rand::rngs::StdRng, b: usize, big: bool) -> (Vec<u8>, Vec<(usize, u16, u16)>) {
     let mut bytes = Vec::new();
+    let mut reqs = Vec::new();
     let nreq = r.gen_range(1..=3);
     for q in 0..nreq {
         let id: u16 = gen::pick(r, &[1u16, 2, 300, 65535]).wrapping_add(q as u16).max(1);
         let role = gen::pick(r, &[1u16, 1, 2, 3, 3]);
+        reqs.push((bytes.len(), id, role));
         let o = gen::ReqOpts { id, role, flags: r.gen::<u8>() & 1, max_pair: (b - 13).min(300), npairs: r.gen_range(0..5), interleave: r.gen_bool(0.3), big: false };
         gen::preamble(&mut bytes, r, &o);
         let classes: &[usize] = if big { &[0, 1, 7, 200, 5000, 65535, 70000, 200_000] } else { &[0, 0, 1, 2, 9, 40, 300] };
@@ -645,7 +656,7 @@ pub fn gen_connection(r: &mut rand::rngs::StdRng, b: usize, big: bool) -> Vec<u8
         if abort_at == Some(2) { let body = gen::rand_bytes(r, 3); gen::record(&mut bytes, r, 2, id, &body, 5); }
         if r.gen_bool(0.2) { gen::noise_record(&mut bytes, r, id); }
     }
-    bytes
+    (bytes, reqs)
 }
 
 pub fn run_trace(prop: &str, seed: u64, scenarios: u64, path: &std::path::Path, rep: &mut Report) {
